@@ -29,6 +29,13 @@ WHAT = {31: "an instance parameter without a name or a value, or a repeated para
         3: "the flat-name-space / required-parameter model of the netlisters (Spec/C06Accept.v) disagrees with the netlisters"}
 
 
+def short_key(job):
+    """canonical JSON of the job; long ones are cut and closed with a digest of the whole"""
+    import hashlib
+    s = json.dumps(job, sort_keys=True)
+    return s if len(s) <= 400 else s[:300] + "#" + hashlib.sha256(s.encode()).hexdigest()[:16]
+
+
 def deep_nameclash(r, d):
     """Give a module the name of a module at least two instantiation levels below it (or the other way round)."""
     kids = {k: sorted({x["of"][1] for x in md["insts"] if x["of"][0] == "mod"}) for k, md in enumerate(d["mods"])}
@@ -438,7 +445,7 @@ def run(run, tier, seed, replay=None):
         for p in o["pkgs"]:
             pk.append(p)
             owner.append(ji)
-    key_of = lambda ji: json.dumps(strip(jobs[ji]), sort_keys=True)
+    key_of = lambda ji: short_key(strip(jobs[ji]))
     # ---- every package: wf_pkg + parameters + the three consumers
     bad = core.coq_eval_cases("C06", "pkgs", IMPORTS, "c06_case", [c_case(p) for p in pk], "run_cases chk_c06_full", chunk=50)
     size = lambda i: len(json.dumps(pk[i]["pkg"]))
@@ -454,7 +461,7 @@ def run(run, tier, seed, replay=None):
                 j = jobs[owner[i]]
                 if code == 51 and j["source"] == "driver" and j["driver"] == "c19" and (j["arg"].get("unit") or {}).get("kind") == "prim":
                     return "C06:required-params:prim:" + j["arg"]["unit"]["name"]
-                return ("C06:flatnames:" if code == 50 else "C06:required-params:") + key_of(owner[i])[:400]
+                return ("C06:flatnames:" if code == 50 else "C06:required-params:") + key_of(owner[i])
             byk = {}
             for i in idx:
                 byk.setdefault(k5(i), []).append(i)
@@ -492,7 +499,7 @@ def run(run, tier, seed, replay=None):
             rest = idx
         for i in sorted(rest, key=size)[:2]:
             what = WHAT.get(code, f"exported package is not well-formed (wf_pkg error code {code})")
-            run.violation(f"C06:{'wf' if code >= 11 and code < 41 else 'accept'}:" + key_of(owner[i])[:400], what,
+            run.violation(f"C06:{'wf' if code >= 11 and code < 41 else 'accept'}:" + key_of(owner[i]), what,
                           dict(kind="spec-inconsistency" if code == 3 else "impl-violates-spec", job=strip(jobs[owner[i]]), pkg=pk[i]["pkg"],
                                code=code, accept=pk[i]["accept"], failing=len(rest)), found_input=code != 3)
     # ---- corpus expectations
@@ -512,7 +519,7 @@ def run(run, tier, seed, replay=None):
                                "run_cases chk_c06_order", chunk=80)
     for i, code in sorted(obad, key=lambda ic: len(json.dumps(jobs[tied[ic[0]]]["design"])))[:2]:
         ji = tied[i]
-        run.violation("C06:order-tie:" + key_of(ji)[:400],
+        run.violation("C06:order-tie:" + key_of(ji),
                       "exporter model and implementation differ (module order / references / external declarations / refusal)" if code == 2
                       else "exporter model could not be evaluated (unknown primitive or fuel)",
                       dict(kind="tie-broken", job=strip(jobs[ji]), impl=outs[ji], code=code, failing=len(obad)), found_input=False)
@@ -525,7 +532,8 @@ def run(run, tier, seed, replay=None):
     netlisted = sum(1 for p in pk if p["accept"]["spice"] is None)
     stressed = [ji for ji, j in enumerate(jobs) if j.get("stress")]
     exported = lambda ji: bool(outs[ji]["pkgs"])
-    run.stream("corpus", len(cp), len(cp), exported=sum(1 for ji, j in enumerate(jobs) if j.get("corpus") and exported(ji)),
+    ncorp = sum(1 for j in jobs if j.get("corpus"))
+    run.stream("corpus", ncorp, ncorp, exported=sum(1 for ji, j in enumerate(jobs) if j.get("corpus") and exported(ji)),
                rule="fixed witnesses: repaired defects, recorded findings, shapes earlier seeded changes needed; all count")
     run.stream("stressed-designs", len(stressed), len({json.dumps(jobs[ji]["design"], sort_keys=True) for ji in stressed}),
                by_fault_kind=stress_kinds, accepted_by_impl=sum(1 for ji in stressed if outs[ji]["pkgs"]),
